@@ -103,7 +103,10 @@ def model_class(nv, tracer=False, lags=0, leads=0):
                 kind, v = o['kind'], o['v']
                 name = endo[o['var'] - 1] if o['var'] > 0 else 'W'
                 if kind == 'set':
-                    d['_' + name][t] = real(v, scale)
+                    # a silent store: arithmetic that is exact or merely inexact / underflowing (NumPy reports neither by
+                    # default) is part of it - only invalid, overflowing and dividing-by-zero operations count as faults
+                    _harmless = np.exp(np.float64(-1000.0)) + np.float64(1e-200) * np.float64(1e-200) + np.float64(1.0) / np.float64(3.0)
+                    d['_' + name][t] = real(v, scale) + _harmless * 0.0
                 elif kind == 'warn':
                     d['_' + name][t] = warn_value(v, flavour)
                 elif kind == 'exc':
